@@ -72,7 +72,7 @@ def _lim(**kw):
 class _ProgStream(Stream):
     parallel = True
     n_quick = 220
-    n_thorough = 1600
+    n_thorough = 4000
     label = "progs"
 
     def cases(self, ctx):
